@@ -22,6 +22,7 @@ ASSUMPTIONS = ["CR/NUL-free sources", "comparison before text_join reads the tok
 
 JS = S.JS
 TYPO = "\"'a1 .-+()c\\*`&"
+TYPO_QUICK = "\"'a .-(\\"  # quick tier: 8 of the 15 (a path costs 30-60 CPU-s)
 
 
 def run_core(md, src, upto_text_join=False):
@@ -29,12 +30,20 @@ def run_core(md, src, upto_text_join=False):
     from markdown_it.rules_core.state_core import StateCore
 
     state = StateCore(src, md, {})
+    from markdown_it.rules_core import inline as inline_rule
+
+    from ..engine_ch import concretize_tokens
+
     for rule in md.core.ruler.getRules(""):
         if rule is normalize:
             continue
         if upto_text_join and rule is text_join:
             break
         rule(state)
+        if rule is inline_rule:
+            # engine optimisation, no change of meaning: token strings whose characters are all concrete become native strs, so that the
+            # typographer's regexes run natively on them; tokens holding a symbolic character stay symbolic
+            concretize_tokens(state.tokens)
     return state.tokens
 
 
@@ -168,12 +177,14 @@ def jobs(tier, seed):
     """quick: one free character from the typographic alphabet per job (a path costs 10-20 CPU-s: four runs of the core chain, and the
     smartquotes rule classifies both neighbours of every quote with Unicode punctuation/whitespace classes)."""
     jobs = []
-    tspec = {n: {"alphabet": TYPO} for n in "abcdefgh"}
+    tspec = {n: {"alphabet": TYPO_QUICK} for n in "abcdefgh"}
     for mode in ("smartquotes", "replacements", "both"):
-        jobs.append({"harness": "typo", "params": {"mode": mode, "scaffold": ["\"", H("a"), "\" 'd' x", H("a"), "y\n"], "spec": tspec, "quotes": None, "name": f"{mode}-free"},
+        jobs.append({"harness": "typo", "params": {"mode": mode, "scaffold": ["\"", H("a"), "\" 'd' xy\n"], "spec": tspec, "quotes": None, "name": f"{mode}-free"},
                      "weight": 8, "cpu_cap": 2400, "wall_cap": 3600, "path_cap": 120})
         for si, sc in enumerate(SCAFFOLDS):
-            if si % 2 == (0 if mode == "both" else 1) or (mode == "both" and si % 4):
+            if mode == "both" and si != 4:
+                continue
+            if si % 2 == 1 or (mode == "replacements" and si in (0, 4)):
                 continue
             sc2 = [("x" if p == H("b") else p) for p in sc]
             symq = mode != "replacements" and si in (0, 4)
